@@ -416,6 +416,17 @@ theorem step_outcome (s : State) (op : Op) :
     · exact Outcome.nonnode ((Chain.refl s).wh _ (whGuard_drop s w)) (by intro i h; cases h)
     · exact Outcome.bad
   | burst => exact Outcome.nonnode (Chain.refl s) (by intro i h; cases h)
+  | lookup sc n t =>
+    simp only [step]
+    split
+    · split
+      · split
+        · rename_i hd
+          exact Outcome.found (Chain.refl _) fun _ => hd
+        · exact Outcome.bad
+      · exact Outcome.nonnode (Chain.refl s) (by intro i h; cases h)
+      · exact Outcome.bad
+    · exact Outcome.bad
   | bad => exact Outcome.bad
 
 end Ipr.Stable
